@@ -251,6 +251,27 @@ theorem C16_dispatch_exactly_once_if_fetched_anyorder_refuted : ¬ C16_dispatch_
 example : envOK none 0 C16_witness_tick_after_later_notice = false ∧
     ticksIncreasing none C16_witness_tick_after_later_notice = true := by decide
 
+/-! ### a failed re-fetch that is never retried (proposer handler)
+
+`exactlyOnceOK` voids every obligation at a failed fetch, so the theorem above does not speak about what happens AFTER a
+failure.  The attester and sync-committee handlers keep `fetchCurrent…`/`fetchNext…` set until a fetch succeeds and ask
+again at every tick; the proposer handler clears `fetchFirst` BEFORE it fetches. -/
+
+/-- witness: proposer duty of slot 45 fetched twice successfully; reorg(current) notice ⇒ `ResetEpoch`, `fetchFirst`; the
+    re-fetch at slot 42 fails; the beacon node answers again from slot 43 on -/
+def C16_witness_proposer_no_retry : List Event :=
+  [.tick 40 40 (.ok [1] [⟨45, 1, 7⟩]) (.ok [1] []), .reorg 41 false true, .tick 42 42 .fail (.ok [1] []),
+   .tick 43 43 (.ok [1] [⟨45, 1, 7⟩]) (.ok [1] []), .tick 44 44 (.ok [1] [⟨45, 1, 7⟩]) (.ok [1] []),
+   .tick 45 45 (.ok [1] [⟨45, 1, 7⟩]) (.ok [1] [])]
+
+/-- KNOWN FINDING `C16/proposer-refetch-not-retried-after-failure` (reproduced on the real handler): after the single
+    failed re-fetch the proposer handler neither asks the beacon node again nor dispatches the duty of slot 45 -/
+theorem C16_proposer_refetch_not_retried :
+    runFrom .prop ⟨32, 256⟩ (stateAfter .prop ⟨32, 256⟩ (initH .prop ⟨32, 256⟩ 40 (.ok [1] [⟨45, 1, 7⟩])).1
+        (C16_witness_proposer_no_retry.take 3)) (C16_witness_proposer_no_retry.drop 3) =
+      [.execs 43 43 [], .execs 44 44 [], .execs 45 45 []] ∧
+    envOK none 40 C16_witness_proposer_no_retry = true := by decide
+
 /-- non-vacuity of `C16_dispatch_exactly_once_if_fetched`: runs with reorg and indices-change notices (one of them
     handled late), a fetch failure, an epoch boundary and a sync-period boundary that satisfy every hypothesis and
     dispatch duties -/
